@@ -178,4 +178,15 @@ theorem testify_scopes_wellformed_partial (m : MethodOut) (retName : String)
 example : (⟨"f", ["_c", "run"], ["x", "y"], ["http", "string"]⟩ : EmitFn).wf :=
   wf_of_disjoint _ (by decide) (by decide) (by decide) (by decide)
 
+
+/-- non-vacuity of the testify theorem: a variadic method with a foreign parameter type, an unnamed and a
+named result meets every hypothesis -/
+example :
+    let m : MethodOut :=
+      ⟨"Fetch", [⟨"ctx", "context.Context", true, false, false, ["context"]⟩, ⟨"ids", "[]int", true, true, true, ["int"]⟩],
+       [⟨"", "string", false, false, false, ["string"]⟩, ⟨"err", "error", true, false, false, ["error"]⟩],
+       ["ctx", "ids", "err", "context"]⟩
+    ∀ f ∈ testifyFns m "ret", f.wf :=
+  testify_scopes_wellformed_partial _ "ret" (by decide) (by decide) (by decide) (by decide) (by decide)
+
 end Mockery.C01
